@@ -57,7 +57,7 @@ Offer(p) ==
 
 \* the peer answers and both apply the answer: both become stable, flags are cleared and re-evaluated
 Answer(p) ==      \* p is the offerer whose exchange completes
-  /\ Tick /\ sig[p] = "have-local-offer" /\ \A q \in Peers : ~closed[q]
+  /\ Tick /\ sig[p] \in {"have-local-offer", "have-remote-pranswer"} /\ \A q \in Peers : ~closed[q]
   /\ LET q  == Other(p)
          rp == Op(p, "stable", FALSE, unsent[p], FALSE)
          rq == Op(q, "stable", FALSE, unsent[q], FALSE)
@@ -71,6 +71,14 @@ Answer(p) ==      \* p is the offerer whose exchange completes
   /\ UNCHANGED <<closed, unsent, dcs>>
   /\ last' = [op |-> "answer", who |-> p]
 
+\* the peer answers provisionally first (pranswer): it is in have-local-pranswer, p in have-remote-pranswer;
+\* nothing is evaluated (neither endpoint is stable), changes made now wait like those made during an offer
+PrAnswer(p) ==
+  /\ Tick /\ sig[p] = "have-local-offer" /\ \A q \in Peers : ~closed[q]
+  /\ sig' = [sig EXCEPT ![p] = "have-remote-pranswer", ![Other(p)] = "have-local-pranswer"]
+  /\ UNCHANGED <<closed, unsent, inflight, flag, fires, everFired, dcs, log>>
+  /\ last' = [op |-> "pranswer", who |-> p]
+
 Close(p) ==
   /\ Tick /\ ~closed[p]
   /\ closed' = [closed EXCEPT ![p] = TRUE]
@@ -78,7 +86,7 @@ Close(p) ==
   /\ last' = [op |-> "close", who |-> p]
 
 Step == \/ \E p \in Peers, k \in {"addTrack", "addTransceiver", "createDC"} : Change(p, k)
-        \/ \E p \in Peers : Offer(p) \/ Answer(p) \/ Close(p)
+        \/ \E p \in Peers : Offer(p) \/ PrAnswer(p) \/ Answer(p) \/ Close(p)
 Next == Step /\ path' = IF RecordPath THEN Append(path, last') ELSE path
 
 \* ---- normative statements on the model
